@@ -1723,7 +1723,7 @@ def _c09_stats(cases, impl):
     return dict(d)
 
 
-PROPS['C09'] = _lay_props(['KVerif.Props.C09', 'KVerif.Props.C09V2', 'KVerif.Props.C09V2cap'],
+PROPS['C09'] = _lay_props(['KVerif.Props.C09', 'KVerif.Props.C09V2', 'KVerif.Props.C09V2cap', 'KVerif.Props.C09kan'],
     'chords v1 (defchords) and v2 (defchordsv2) tables over 2-5 participating keys whose actions are marker keys (11 fixed tables: single chord, with singletons, overlapping, sub-chords, undefined supersets; plus random tables; v2: both release behaviours, entries disabled on the second layer, chords-v2-min-idle variants); for every target set S (|S| >= 2, defined or not): every permutation of the press order x every release order x timing variants (span first-to-last press 0, 1, T-2, T-1, T, T+1, 2T+3 placed before the last press / after the first press / spread; release immediately or after the timeout), exhaustive for |S| <= 4 (v2 families sampled in the quick tier) and sampled for |S| = 5; the same sets typed on the layer where the keys are plain / the chord is disabled; a non-chord key inside the window; the capacity scenario (one chord pressed 9-12 times without release); random physically consistent histories over chord keys, plain keys and the layer key incl. bursts > 32 events; non-trivial = output changed at least twice; distinct = distinct case line. Oracle on the implementation trace. v1: for clean histories the sequence of marker down-transitions equals the greedy decomposition of the press order computed from the table alone (whole set fires once, no participant singleton, two bursts a timeout apart fire separately, a non-chord key inside the window splits it and is delivered in between); no marker on the plain layer. v2: a defined set completed within its timeout fires its marker exactly once (never two copies), no participant key is output, the marker goes up after the first / last participant release per the release rule and not before; completed later than the timeout it does not fire. Both: everything up at the end and within a bound after the last release; keys outside the chords in press order',
     'C09o',
     extra_trusted=['Model/ChordsV2.lean as a transcription of keyberon/src/chord.rs (after the fixes <fix-capacity>, <fix-cooldown>, <fix-double>; the behaviour before them is kept in Model/ChordsV2Pinned.lean for the counterexample theorems only) and of the chords-v2 hooks of Layout::event / Layout::tick (checked differentially per run incl. a digest of the private ChordsV2 state through hook verif_digest_chv2)'],
@@ -1735,6 +1735,153 @@ PROPS['C09'] = _lay_props(['KVerif.Props.C09', 'KVerif.Props.C09V2', 'KVerif.Pro
 PROPS['C09']['norm_impl'] = _c09_norm
 PROPS['C09']['norm_model'] = lambda o: o if o.startswith('crash indexOOB(') else _norm_crash(o)
 PROPS['C09']['stats'] = _c09_stats
+
+# BEGIN t3: C09 source-level oracle for defchords (v1) -----------------------------------------
+# The resolved ChordsGroup the parser builds no longer says WHICH chord key a `(chord g k)` cell
+# names (one shared table of coordinates for all layers), so whether the parser placed the chord keys
+# as the configuration spells them out can only be judged from the configuration text. Cases the Lean
+# oracle skips (a chord action inside a tap-hold, or on a layer other than the first) are judged here,
+# for one narrow shape: cells that are a key, `(chord g k)`, `(tap-hold n n key (chord g k))`,
+# `(tap-hold-release n n key (chord g k))`, `(layer-switch l)`, `(layer-while-held l)`; one defchords
+# group whose actions are plain marker keys; history = [tap or hold of ONE layer key,] distinct chord
+# cells pressed between two ticks, held past every timeout, released, quiet tail. Required: the
+# marker of the chord formed by the chord keys the pressed cells name ON THE LAYER IN FORCE goes down
+# exactly once and no other marker does.
+_C09_CODES = {'1': 2, '2': 3, '3': 4, '4': 5, '5': 6, '6': 7, '7': 8, '8': 9, '9': 10, '0': 11, 'q': 16, 'w': 17, 'e': 18,
+              'r': 19, 't': 20, 'y': 21, 'u': 22, 'i': 23, 'o': 24, 'p': 25, 'a': 30, 's': 31, 'd': 32, 'f': 33, 'g': 34,
+              'h': 35, 'j': 36, 'k': 37, 'l': 38, 'z': 44, 'x': 45, 'c': 46, 'v': 47, 'b': 48, 'n': 49, 'm': 50}
+
+
+def _sexprs(text):
+    toks = re.findall(r'[()]|[^\s()]+', re.sub(r';;[^\n]*', '', text))
+    pos = 0
+
+    def rd():
+        nonlocal pos
+        t = toks[pos]; pos += 1
+        if t == '(':
+            l = []
+            while toks[pos] != ')':
+                l.append(rd())
+            pos += 1
+            return l
+        return t
+    out = []
+    while pos < len(toks):
+        out.append(rd())
+    return out
+
+
+def _c09_src_oracle(case, impl):
+    if not case.startswith('LAY ') or impl.startswith(('rej', 'crash')):
+        return None
+    try:
+        forms = _sexprs(_cfg_text(case))
+    except Exception:
+        return None
+    src = [f for f in forms if f and f[0] == 'defsrc']
+    layers = [f for f in forms if f and f[0] == 'deflayer']
+    groups = [f for f in forms if f and f[0] == 'defchords']
+    if len(src) != 1 or len(groups) != 1 or not layers or any(f[0] not in ('defcfg', 'defsrc', 'deflayer', 'defchords') for f in forms):
+        return None
+    g = groups[0]
+    gname, gto = g[1], int(g[2])
+    table = {}
+    for ks, act in zip(g[3::2], g[4::2]):
+        if not isinstance(ks, list) or not isinstance(act, str) or act not in _C09_CODES:
+            return None
+        table[frozenset(ks)] = _C09_CODES[act]
+    markers = set(table.values())
+    keys = src[0][1:]
+    if any(k not in _C09_CODES for k in keys) or markers & {_C09_CODES[k] for k in keys}:
+        return None
+    lnames = [l[1] for l in layers]
+    cells = {}          # (layer index, key code) -> ('key', code) | ('chord', k, wait) | ('sw', i) | ('wh', i)
+    for li, l in enumerate(layers):
+        if len(l) != 2 + len(keys):
+            return None
+        for k, c in zip(keys, l[2:]):
+            kc = _C09_CODES[k]
+            if isinstance(c, str):
+                if c == '_' or c not in _C09_CODES or _C09_CODES[c] in markers:
+                    return None
+                cells[(li, kc)] = ('key', _C09_CODES[c])
+            elif c[0] == 'chord' and len(c) == 3 and c[1] == gname:
+                cells[(li, kc)] = ('chord', c[2], 0)
+            elif c[0] in ('tap-hold', 'tap-hold-release') and len(c) == 5 and isinstance(c[4], list) and c[4][0] == 'chord' and c[4][1] == gname and isinstance(c[3], str):
+                cells[(li, kc)] = ('chord', c[4][2], int(c[2]))
+            elif c[0] in ('layer-switch', 'layer-while-held') and len(c) == 2 and c[1] in lnames:
+                cells[(li, kc)] = ('sw' if c[0] == 'layer-switch' else 'wh', lnames.index(c[1]))
+            else:
+                return None
+    t = case.split()
+    hi = t.index('HIST')
+    evs, i = [], hi + 2
+    while i < len(t):
+        if t[i] in ('p', 'r'):
+            if t[i + 1] != '0':
+                return None
+            evs.append((t[i], int(t[i + 2]))); i += 3
+        elif t[i] == 't':
+            evs.append(('t', int(t[i + 1]))); i += 2
+        else:
+            return None
+    if not evs or evs[-1][0] != 't' or evs[-1][1] < 300:
+        return None
+    layer, held_layer_key = 0, None
+    j = 0
+    # optional layer key first
+    if evs[0][0] == 'p' and cells.get((0, evs[0][1]), ('', 0))[0] in ('sw', 'wh'):
+        kind, tgt = cells[(0, evs[0][1])]
+        lk = evs[0][1]
+        if len(evs) < 4 or evs[1][0] != 't' or evs[1][1] < 5:
+            return None
+        if kind == 'sw':
+            if evs[2] != ('r', lk) or evs[3][0] != 't' or evs[3][1] < 5:
+                return None
+            j = 4
+        else:
+            held_layer_key = lk
+            j = 2
+        layer = tgt
+    body = evs[j:-1]
+    if held_layer_key is not None:
+        if not body or body[-1] != ('r', held_layer_key):
+            return None
+        body = body[:-1]
+    # presses (no tick in between), one tick, releases (ticks allowed)
+    n = 0
+    while n < len(body) and body[n][0] == 'p':
+        n += 1
+    pressed = [k for _, k in body[:n]]
+    if n == 0 or n >= len(body) or body[n][0] != 't' or len(set(pressed)) != n:
+        return None
+    rest = body[n + 1:]
+    if sorted(k for e, k in rest if e == 'r') != sorted(pressed) or any(e == 'p' for e, _ in rest):
+        return None
+    cs = [cells.get((layer, k)) for k in pressed]
+    if any(c is None or c[0] != 'chord' for c in cs):
+        return None
+    wait = max(c[2] for c in cs)
+    if wait > 0 and n != 1:
+        return None          # a wrapped chord key: judged alone only (documented: wrappers apply to the first key)
+    if body[n][1] < wait + gto + 20:
+        return None
+    want = table.get(frozenset(c[1] for c in cs))
+    if want is None:
+        return None
+    downs, prev = [], []
+    for m in re.finditer(r'@(\d+) K(\S+)', _lay_keys_only(impl)):
+        cur = [] if m.group(2) == '-' else [int(x) for x in m.group(2).split(',')]
+        downs += [k for k in dict.fromkeys(cur) if k in markers and k not in prev]
+        prev = cur
+    if downs != [want]:
+        return f'fail defchords as written: the pressed cells name the chord keys {sorted(c[1] for c in cs)} on layer {lnames[layer]}, whose action is key {want}; marker downs {downs}'
+    return 'ok'
+
+
+PROPS['C09']['free_oracle'] = _c09_src_oracle
+# END t3 ---------------------------------------------------------------------------------------
 
 # ----------------------------------------------------------------------------- C03
 def _c03_fields(out):
